@@ -4,15 +4,16 @@
    (1) the PikeVM model's search returns exactly the leftmost-first match of the big-step IR semantics
        (Spec/IRSem.v): same start, same end, same value for every capture group, every node kind;
    (2) the backtracking model's search (prefilter-free: bt_search (fun _ => true), which is next_match for an
-       Arbitrary start predicate) returns that same match, for every node kind except Loop1CharBody — i.e. for
-       everything compiled with Flags::no_opt and for optimised programs without a single-character loop;
+       Arbitrary start predicate) returns that same match, for every node kind;
    (3) hence the two agree with each other (same match, same captures, same next start) in the UTF-8 and in the
        ASCII input mode.
    Hypotheses, all evaluated by the driver on every generated case: the IR semantics is defined on the search
    (ir_search = Some r); the IR has the shape the parser/optimizer guarantee (top_shape, bt_wf: lookaround
    capture ranges cover their bodies); for UTF-8, the positions the search visits stay within the haystack (walk_ok,
    true of valid UTF-8 from a character boundary); for ASCII, the haystack is made of bytes.
-   Not proved: (2) for Loop1CharBody (the backtracker's run_scm_loop); the effect of the start prefilter (C04);
+   Loop1CharBody in the backtracker relies on "stepping back one character undoes a single-character step"; the IR
+   semantics makes that a definedness condition of every such step (IRSem.step_inv), so it is part of what the
+   driver evaluates.  Not proved: the effect of the start prefilter (C04);
    the Matches iteration on top of next_match (C09 proves it from the first-match function). *)
 From RV Require Import Base.
 From RV.Model Require Import Utf8 Indexer CodePointSet Insn IR Optimizer Unfold Emit Pike BT Exec Fold.
@@ -46,7 +47,7 @@ Theorem c02_backtracker_search_is_ir_semantics : forall ix h utf16 unicode ml n 
     bt_search ix prog h budget pfuel (fun _ => true) tries (bt_init prog) p n = (bt_result_of ix h r st', n + k).
 Proof. exact bt_emit_correct. Qed.
 
-(* every node kind except Loop1CharBody: the backtracker explores exactly the ordered successes of the IR
+(* every node kind: the backtracker explores exactly the ordered successes of the IR
    semantics, restoring captures, stack and loop data behind each of them *)
 Theorem c02_backtracker_node_correct : forall ix prog h utf16,
   (forall fwd p c p', cnext ix fwd h p = Ok (Some (c, p')) -> ix_elem_of_u32 ix c = true) ->
